@@ -339,12 +339,13 @@ macro_rules! c05_var_f {
 // =====================================================================================
 #[macro_export]
 macro_rules! c04_check_i8 {
-    ($name:ident, $ty:ty, $cfg:expr, $d:expr, $unw:expr) => {
+    ($name:ident, $ty:ty, $cfg:expr, $d:expr, $unw:expr, $ctor:ident) => {
         $crate::with_table_stubs! { $unw,
         fn $name() {
             const D: usize = $d;
             let c: $crate::refmodels::Cfg = $cfg;
-            let mut a = <$ty>::new();
+            // `new` or `default`: both public ways to obtain the arithmetic
+            let mut a = <$ty>::$ctor();
             let mut vals = [0i32; D];
             let mut msgs = [Message { source: 0usize, value: 0i8 }; D];
             let mut j = 0;
@@ -438,6 +439,8 @@ macro_rules! c04_check_f {
             let mut j = 0;
             while j < D {
                 assert!(cnt[j] == 1);
+                // finite inputs never produce NaN
+                assert!(!out[j].is_nan());
                 if $sign {
                     let on = negs - if vals[j] < 0.0 { 1 } else { 0 };
                     if out[j] > 0.0 { assert!(on % 2 == 0); }
@@ -1633,5 +1636,97 @@ macro_rules! c18_pair {
             kani::cover!(exp0 == 0);
             core::mem::forget(d1); core::mem::forget(d2); core::mem::forget(r0); core::mem::forget(r1); core::mem::forget(r2);
         }}
+    };
+}
+
+// =====================================================================================
+// C02 encode(): both encoder kinds, built through the verif-hooks constructors from a
+// generator part (dense: every entry symbolic; staircase: concrete sparse H0), all messages
+// =====================================================================================
+#[macro_export]
+macro_rules! c02_encode_dense {
+    ($name:ident, $r:expr, $k:expr, $unw:expr) => {
+        #[kani::proof]
+        #[kani::unwind($unw)]
+        fn $name() {
+            const R: usize = $r;
+            const K: usize = $k;
+            let mut g = Array2::<GF2>::zeros((R, K));
+            let mut gb = [[false; K]; R];
+            let mut mb = [false; K];
+            let mut m2 = [false; K];
+            let mut i = 0;
+            while i < R {
+                let mut j = 0;
+                while j < K { let x: bool = kani::any(); gb[i][j] = x; g[[i, j]] = if x { GF2::one() } else { GF2::zero() }; j += 1; }
+                i += 1;
+            }
+            let mut j = 0;
+            while j < K { mb[j] = kani::any(); m2[j] = kani::any(); j += 1; }
+            let enc = Encoder::verif_from_dense_generator(g);
+            let gf = |b: bool| if b { GF2::one() } else { GF2::zero() };
+            let mut mv = ndarray::Array1::<GF2>::zeros(K);
+            let mut mv2 = ndarray::Array1::<GF2>::zeros(K);
+            let mut ms = ndarray::Array1::<GF2>::zeros(K);
+            let mut j = 0;
+            while j < K { mv[j] = gf(mb[j]); mv2[j] = gf(m2[j]); ms[j] = gf(mb[j] ^ m2[j]); j += 1; }
+            let cw = enc.encode(&mv);
+            let cw2 = enc.encode(&mv2);
+            let cws = enc.encode(&ms);
+            assert!(cw.len() == K + R && cw2.len() == K + R && cws.len() == K + R);
+            let mut j = 0;
+            while j < K { assert!(cw[j] == mv[j]); j += 1; }
+            let mut i = 0;
+            while i < R {
+                // parity bit i = row i of the generator part times the message
+                let mut s = false;
+                let mut j = 0;
+                while j < K { s ^= gb[i][j] && mb[j]; j += 1; }
+                assert!(cw[K + i] == gf(s));
+                i += 1;
+            }
+            // linear over GF(2)
+            let mut t = 0;
+            while t < K + R { assert!(cws[t] == cw[t] + cw2[t]); t += 1; }
+            kani::cover!(cw[K].is_one());
+            core::mem::forget(enc); core::mem::forget(cw); core::mem::forget(cw2); core::mem::forget(cws);
+        }
+    };
+}
+
+#[macro_export]
+macro_rules! c02_encode_staircase {
+    ($name:ident, $h0fn:ident, $h0b:ident, $r:expr, $k:expr, $unw:expr) => {
+        #[kani::proof]
+        #[kani::unwind($unw)]
+        fn $name() {
+            const R: usize = $r;
+            const K: usize = $k;
+            let mut mb = [false; K];
+            let mut j = 0;
+            while j < K { mb[j] = kani::any(); j += 1; }
+            let gf = |b: bool| if b { GF2::one() } else { GF2::zero() };
+            let mut mv = ndarray::Array1::<GF2>::zeros(K);
+            let mut j = 0;
+            while j < K { mv[j] = gf(mb[j]); j += 1; }
+            let enc = Encoder::verif_from_staircase_generator($h0fn());
+            let cw = enc.encode(&mv);
+            assert!(cw.len() == K + R);
+            let mut j = 0;
+            while j < K { assert!(cw[j] == mv[j]); j += 1; }
+            // every check of H = [H0 | staircase]: row i has ones of H0 row i, parity i and (i >= 1) parity i-1
+            let mut i = 0;
+            while i < R {
+                let mut s = false;
+                let mut j = 0;
+                while j < K { s ^= $h0b[i][j] && mb[j]; j += 1; }
+                s ^= cw[K + i].is_one();
+                if i >= 1 { s ^= cw[K + i - 1].is_one(); }
+                assert!(!s);
+                i += 1;
+            }
+            kani::cover!(cw[K + R - 1].is_one());
+            core::mem::forget(enc); core::mem::forget(cw);
+        }
     };
 }
